@@ -203,6 +203,21 @@ def check(case: dict[str, Any]) -> list[tuple[str, str]]:
             out.append((f"{P}/parse_dynamic-other-bytes", f"{dyn.pdu.hex()[:80]} != {pdu.hex()[:80]}"))
         elif type(dyn) is cls and _norm_attrs(name, pub(dyn)) != _norm_attrs(name, pub(obj)):
             out.append((f"{P}/parse_dynamic-other-fields", f"{_short(pub(dyn))} != {_short(pub(obj))}"))
+    # a request is fixed by the values it was built with: what the caller later does with the list objects it passed in (reuse for
+    # the next request, append, overwrite) must not reach into the request
+    lists = {k: list(v) for k, v in kw.items() if isinstance(v, list)}
+    if lists and not out:
+        try:
+            held = cls(**{**kw, **lists})
+            for v in lists.values():
+                if v:
+                    v[0] = (v[0] + 1) & 0xFF if isinstance(v[0], int) else v[0]
+                v.extend(v[:1] or [1])
+            if held.pdu != ref:
+                out.append((f"{P}/aliases-caller-arguments", f"{name}(**{_short(kw)}): after the caller changed its own lists the request's pdu became "
+                            f"{held.pdu.hex()[:80]} (was {ref.hex()[:80]})"))
+        except Exception as e:  # noqa: BLE001
+            out.append((f"{P}/aliases-caller-arguments", f"{name}(**{_short(kw)}): pdu raised {type(e).__name__} after the caller changed its own lists: {e}"))
     # kwargs that are attributes must be exposed unchanged (list-valued attributes normalised)
     for k, v in kw.items():
         if v is None or not hasattr(obj, k):
